@@ -635,7 +635,10 @@ def hostile_ops(s, rng, conns, srcs, listener=None, n=None, magic_bits=0):
         r = rng.random()
         dst = rng.choice(conns)
         src = rng.choice(srcs)
-        if r < 0.12:
+        if listener and r < 0.08:
+            # a restart-handshake request in the current wire format, built from a datagram of the listener or of the server-side connection
+            s.op("craft %d %d %d %d 4 -1 %d -1 -1 -1 %d" % (rng.choice(conns), listener[0], -rng.randint(1, 6), rng.choice([1, 1, 1, 0]), rng.randint(0, 255), rng.choice([8, 9, 12, 16, 17, 0])))
+        elif r < 0.12:
             # every field of the packed packet header of a data datagram: history word count (4 bits), acked sequence, sequence
             # (layout: magic, 2+3 id bits, handshake bit, then the 32-bit packed header LSB first)
             off = magic_bits + 6 + rng.choice([0, 0, 0, 4, 8, 12, 14, 18, 22, 26, 28])
@@ -1006,4 +1009,159 @@ def hs_stray_session(seed):
     s.note("drained")
     s.op("closed 1")
     s.op("closed 2")
+    return s.ops
+
+
+def hs_outage_session(seed):
+    """C05 / C07: the handshake is interrupted for a long time (the challenge response and its re-sends are lost for 3 .. 60 s, the
+    listener may rotate its secret meanwhile); once the network is fault-free again the handshake must complete, once"""
+    rng = random.Random(seed)
+    s = Session(rng)
+    s.op("reset")
+    magic = rng.choice([(0, 0), (0, 0), (8, 0xA5), (32, 0xDEADBEEF)])
+    if magic[0]:
+        s.op("cfg magic %d %d" % magic)
+    if rng.random() < 0.4:
+        s.op("tick %d" % (rng.randint(0, 7200) * 1000000000))
+    s.op("seed %d %d" % (rng.randint(1, 1 << 30), rng.randint(1, 1 << 30)))
+    s.op("listener 10")
+    addr = rng.choice(["1.2.3.4:5", "a", "x" * 63])
+    s.op("conn 1")
+    s.op("connect 1")
+    s.op("onaccept 10 %s 2" % addr)
+    s.note("peers 1 2")
+    s.note("handshake %s" % addr)
+    stage = rng.choice(["initial", "challenge", "response", "response", "response", "ack"])
+    if stage != "initial":
+        s.op("route 10 %s 1" % addr)          # initial -> challenge
+        if stage != "challenge":
+            s.op("dla 1 10")                  # challenge -> response emitted
+            if stage == "ack":
+                s.op("route 10 %s 1" % addr)  # response -> accept + ack (which will be lost)
+    outage = rng.choice([3, 14, 16, 30, 41, 45, 60])
+    step_ms = rng.choice([250, 1000, 1000, 1100, 5000])
+    t = 0
+    rot_at = sorted(rng.sample(range(1, outage * 1000), rng.choice([0, 0, 1, 2, 2]))) if outage > 1 else []
+    while t < outage * 1000:
+        t += step_ms
+        s.op("tick %d" % (step_ms * 1000000))
+        while rot_at and rot_at[0] <= t:
+            rot_at.pop(0)
+            s.op("rot 10")
+        s.op("update 1")
+        s.op("update 2")
+        # everything the client and the server side emit during the outage is lost
+        s.op("skip 1")
+        s.op("skip 10")
+        s.op("skip 2")
+    # the network heals
+    for rnd in range(24):
+        s.op("tick %d" % (rng.choice([500, 1000, 1000, 1100]) * 1000000))
+        s.op("update 1")
+        s.op("update 2")
+        for _ in range(3):
+            s.op("route 10 %s 1" % addr)
+        s.op("dla 1 10")
+        s.op("dla 1 2")
+        if rnd >= 20:
+            s.op("flush 1")
+            s.op("flush 2")
+    s.note("settled")
+    s.op("ifconn 1 send 1 0 9 0 1 30 %d" % s.next_pseed())
+    s.op("ifconn 2 send 2 0 9 0 1 40 %d" % s.next_pseed())
+    for _ in range(4):
+        s.op("tick 250000000")
+        s.op("flush 1")
+        s.op("route 10 %s 1" % addr)
+        s.op("route 10 %s 1" % addr)
+        s.op("flush 2")
+        s.op("dla 1 2")
+        s.op("dla 1 10")
+    s.note("drained")
+    s.op("closed 1")
+    s.op("closed 2")
+    return s.ops
+
+
+def hs_migrate_session(seed):
+    """C05 / C06 / C08: after a completed handshake and some traffic the client's datagrams arrive from a new address; the listener asks
+    it to restart the handshake, the client answers with a restart response that echoes its original cookie, the application re-binds the
+    existing connection (the sample's policy) and reliable traffic continues on the same sequence numbers"""
+    rng = random.Random(seed)
+    s = Session(rng)
+    s.op("reset")
+    magic = rng.choice([(0, 0), (0, 0), (8, 0xA5), (32, 0xDEADBEEF)])
+    if magic[0]:
+        s.op("cfg magic %d %d" % magic)
+    if rng.random() < 0.4:
+        s.op("tick %d" % (rng.randint(0, 7200) * 1000000000))
+    s.op("seed %d %d" % (rng.randint(1, 1 << 30), rng.randint(1, 1 << 30)))
+    s.op("listener 10")
+    a1 = rng.choice(["1.2.3.4:5", "a", "x" * 63])
+    a2 = rng.choice(["9.8.7.6:5", "b", "y" * 63, a1 + "1" if len(a1) < 63 else "zz"])
+    s.op("conn 1")
+    s.op("connect 1")
+    s.op("onaccept 10 %s 2" % a1)
+    s.note("peers 1 2")
+    s.note("hostile")      # C01-C05 monitors assume one address; these sessions are judged by correspondence and the robustness monitors
+    for _ in range(3):
+        for _ in range(2):
+            s.op("route 10 %s 1" % a1)
+        s.op("dla 1 10")
+        s.op("dla 1 2")
+    # traffic on the established connection
+    s.op("ifconn 1 send 1 0 9 0 1 30 %d" % s.next_pseed())
+    s.op("ifconn 2 send 2 0 9 0 1 40 %d" % s.next_pseed())
+    for _ in range(rng.randint(1, 4)):
+        s.op("tick 250000000")
+        s.op("ifconn 1 send 1 0 8 0 1 %d %d" % (payload_bits(rng, small=True), s.next_pseed()))
+        s.op("flush 1")
+        s.op("route 10 %s 1" % a1)
+        s.op("flush 2")
+        s.op("dla 1 2")
+    # the client moves
+    if rng.random() < 0.3:
+        s.op("rot 10")
+    # mode "current": the listener's own restart request (sent in the original wire format, which this client refuses and closes on) is
+    # lost; a request in the current wire format arrives instead, so the restart handshake actually runs
+    current = rng.random() < 0.6
+    requested = False
+    for rnd in range(rng.randint(6, 12)):
+        s.op("tick %d" % (rng.choice([100, 250, 1000, 1100]) * 1000000))
+        if rng.random() < 0.6:
+            s.op("ifconn 1 send 1 0 8 0 1 %d %d" % (payload_bits(rng, small=True), s.next_pseed()))
+        s.op("flush 1")
+        s.op("update 1")
+        s.op("update 2")
+        for _ in range(3):
+            if rng.random() < 0.85:
+                s.op("route 10 %s 1" % a2)
+            else:
+                s.op("drop 1")
+        if current and not requested:
+            # the handshake datagrams of the listener so far are its challenge and its ack: either serves as the template
+            s.op("craft 1 10 -%d 1 4 -1 %d -1 -1 -1 %d" % (rng.randint(1, 2), rng.randint(0, 255), rng.choice([9, 12, 16])))
+            s.op("skip 10")
+            requested = True
+        elif current:
+            s.op("hsdla 1 10")      # only handshake-sized replies (challenge, ack); the 1-byte requests are lost
+        else:
+            s.op("dla 1 10")
+        s.op("flush 2")
+        s.op("dla 1 2")
+        if rng.random() < 0.15:
+            s.op("routeat 10 %s 1 -%d" % (rng.choice([a1, a2]), rng.randint(1, 5)))   # a late datagram, possibly via the old address
+    for _ in range(4):
+        s.op("tick 250000000")
+        s.op("ifconn 1 send 1 0 8 0 1 8 %d" % s.next_pseed())
+        s.op("ifconn 2 send 2 0 8 0 1 8 %d" % s.next_pseed())
+        s.op("flush 1")
+        s.op("route 10 %s 1" % a2)
+        s.op("route 10 %s 1" % a2)
+        s.op("flush 2")
+        s.op("dla 1 2")
+        s.op("dla 1 10")
+    s.op("closed 1")
+    s.op("closed 2")
+    s.op("nodes")
     return s.ops
